@@ -573,14 +573,27 @@ func (s *stash) createBinding(name unistring.String, deletable bool) {
 	if s.names == nil {
 		s.names = make(map[unistring.String]uint32)
 	}
-	if _, exists := s.names[name]; !exists {
+	if idx, exists := s.names[name]; !exists {
 		idx := uint32(len(s.names)) | maskVar
 		if deletable {
 			idx |= maskDeletable
 		}
 		s.names[name] = idx
 		s.values = append(s.values, _undefined)
+	} else if isFuncNameBinding(idx) {
+		// the own name of a named function expression lives in a scope of its own: a var of the same name takes its place
+		nidx := (idx &^ maskTyp) | maskVar
+		if deletable {
+			nidx |= maskDeletable
+		}
+		s.names[name] = nidx
+		s.values[idx&^maskTyp] = _undefined
 	}
+}
+
+// isFuncNameBinding reports whether idx describes the (immutable, non-strict) binding of a function expression's own name.
+func isFuncNameBinding(idx uint32) bool {
+	return idx&maskVar == 0 && idx&maskConst != 0 && idx&maskStrict == 0
 }
 
 func (s *stash) createLexBinding(name unistring.String, isConst bool) {
@@ -4300,7 +4313,7 @@ func (d *bindVars) exec(vm *vm) {
 	var target *stash
 	for _, name := range d.names {
 		for s := vm.stash; s != nil; s = s.outer {
-			if idx, exists := s.names[name]; exists && idx&maskVar == 0 {
+			if idx, exists := s.names[name]; exists && idx&maskVar == 0 && !isFuncNameBinding(idx) {
 				vm.throw(vm.alreadyDeclared(name))
 				return
 			}
